@@ -171,3 +171,107 @@ func SelfCarry(next func() *int, n int) *int {
 	}
 	return cur
 }
+
+// --- path-sensitive reachability ------------------------------------------
+
+// ResultTempGood is the shape an inlined helper leaves behind: the error of
+// Write travels through a result temporary (a phi) to the caller's nil test.
+// Create needs ok(Write): holds.
+func ResultTempGood(a api, skip bool) error {
+	var r error
+	for {
+		if err := a.Write("refs"); err != nil {
+			r = errors.New("wrapped: " + err.Error())
+			break
+		}
+		r = nil
+		break
+	}
+	if r != nil {
+		return r
+	}
+	return a.Create("x")
+}
+
+// ResultTempBad: one path leaves the temporary nil without having written
+// (early `return nil` of the helper): Create is reachable without ok(Write).
+func ResultTempBad(a api, skip bool) error {
+	var r error
+	for {
+		if skip {
+			r = nil
+			break
+		}
+		if err := a.Write("refs"); err != nil {
+			r = err
+			break
+		}
+		r = nil
+		break
+	}
+	if r != nil {
+		return r
+	}
+	return a.Create("x")
+}
+
+// RetestedGood: the same value is tested twice; Create is unreachable when the
+// flag is set although the second test alone would let it through.
+func RetestedGood(a api, rc *int, never bool) error {
+	if rc == nil && never {
+		return errors.New("not cached")
+	}
+	if rc == nil {
+		if never {
+			return a.Create("never") // infeasible
+		}
+		return a.Write("fetch")
+	}
+	return nil
+}
+
+// PredicateGood: isBenign(err) is asked twice about the same error value.
+func PredicateGood(a api) error {
+	err := a.Write("a")
+	if isBenign(err) {
+		err = a.Write("b")
+	}
+	if isBenign(err) {
+		return nil // only the second Write's benign error gets here
+	}
+	return err
+}
+
+// --- normaliser --------------------------------------------------------------
+
+// helperWrite / helperMaybeWrite play the part of helpers a refactoring
+// extracted: the self-check inlines them into their callers.
+func helperWrite(a api) error {
+	if err := a.Write("refs"); err != nil {
+		return errors.New("cannot write: " + err.Error())
+	}
+	return nil
+}
+
+func helperMaybeWrite(a api, skip bool) error {
+	if skip {
+		return nil
+	}
+	return a.Write("refs")
+}
+
+// ExtractedGood: Create still needs ok(Write) once the helper is inlined.
+func ExtractedGood(a api) error {
+	if err := helperWrite(a); err != nil {
+		return err
+	}
+	return a.Create("x")
+}
+
+// ExtractedBad: the helper can return nil without writing.
+func ExtractedBad(a api, skip bool) error {
+	if err := helperMaybeWrite(a, skip); err != nil {
+		return err
+	}
+	return a.Create("x")
+}
